@@ -147,6 +147,10 @@ def _check_str(run, rc, mod, res):
         t = res[oc]["t"]
         bad = [o for o in outs if o.kind == "raise" and (
             t.exc_isa(o.val, MISSING) or t.exc_isa(o.val, RESPERR))]
+        # a marker string where the integer was expected (str * float,
+        # str + int): rendering is total, so a TypeError out of __str__ for
+        # one of the outcomes is the same failure under another name
+        bad += [o for o in outs if o.kind == "raise" and o.val == "TypeError"]
         r = rc.lookup("__str__")
         owner = r[0].qname if r else "object"
         run.ob("R-STR", "%s#__str__[%s]" % (rc.qname, oc), not bad,
@@ -158,6 +162,31 @@ def _check_str(run, rc, mod, res):
                sample=_sample(rc, "__str__", oc, outs) if (
                    bad or rc.name in ("Response", "NumericResponseMask"))
                else None)
+        if oc == "err":
+            # the text of a garbled answer is not chosen by the garbled
+            # byte: every path of __str__ covers all 256 bytes (no comparison
+            # or table look-up on the byte of a frame whose `error` is set)
+            # ... beyond what `value` itself reports for it: a path of
+            # __str__ covers whole blocks of the partition value makes of
+            # the 256 garbled bytes (one block for every class but the one
+            # whose value documents markers computed from the raw byte)
+            blocks = [set(o.bytes) for o in res[oc]["value"]
+                      if o.bytes is not None]
+
+            def whole(bs):
+                bs = set(bs)
+                return all(b <= bs or not (b & bs) for b in blocks) and \
+                    bs <= set().union(*blocks) if blocks else False
+            split = [o for o in outs if o.bytes is not None and
+                     set(o.bytes) != set(ALL_BYTES) and not whole(o.bytes)]
+            run.ob("R-STR", "%s#__str__[err]#byte-not-interpreted" % rc.qname,
+                   not split,
+                   "str() of a framing-error answer is chosen by the garbled "
+                   "byte where `value` makes no such distinction (bytes %s "
+                   "take their own path; __str__ is %s.__str__): a collision or noise that happens to read as a "
+                   "defined code is rendered as a clean answer" % (
+                       brief_bytes(split[0].bytes) if split else "", owner),
+                   where(mod, rc.node))
 
 
 def _check_value(run, world, folder, rc, fam, mod, res):
